@@ -365,3 +365,12 @@ func init() {
 		},
 	})
 }
+
+// privateField reads an unexported struct field through reflect+unsafe.
+func privateField(ptr interface{}, name string) reflect.Value {
+	f := reflect.ValueOf(ptr).Elem().FieldByName(name)
+	if !f.IsValid() {
+		panic("field not found: " + name)
+	}
+	return reflect.NewAt(f.Type(), unsafe.Pointer(f.UnsafeAddr())).Elem()
+}
